@@ -5755,3 +5755,276 @@ func constructorBypassedRule(id string, pkgs ...string) func(*eng.Ctx) {
 		c.Ok(R, "module#scanned", token.NoPos, fmt.Sprintf("%d literals of struct types that have a constructor", n))
 	}
 }
+
+// ---------------------------------------------------------------------------------------------------------------
+// R4.16 the reader over whole files with revision histories: every number answers with its newest definition.
+
+type revObj struct {
+	num    int
+	delete bool
+	inStm  bool // stored in the revision's object stream (stream revisions only)
+}
+
+type revision struct {
+	stream bool // cross-reference stream instead of a classic section
+	objs   []revObj
+}
+
+// buildHistory writes a file with the given revisions. Object 1 is the catalog; every other object n of revision r is
+// the string (r<r>o<n>). It returns the file and, per object number, the token its newest definition holds ("" = error).
+func buildHistory(revs []revision) ([]byte, map[int]string, []int) {
+	var b strings.Builder
+	b.WriteString("%PDF-1.5\n%\xe2\xe3\xcf\xd3\n")
+	want := map[int]string{}
+	maxNum := 1
+	for _, r := range revs {
+		for _, o := range r.objs {
+			if o.num > maxNum {
+				maxNum = o.num
+			}
+		}
+	}
+	next := maxNum + 1 // numbers for object streams and cross-reference streams
+	prev := -1
+	size := 0
+	for ri, r := range revs {
+		type ent struct {
+			kind     int // 0 free, 1 in use, 2 compressed
+			a, b2    int
+			num      int
+			hasEntry bool
+		}
+		var ents []ent
+		var stmObjs []revObj
+		for _, o := range r.objs {
+			switch {
+			case o.delete:
+				ents = append(ents, ent{kind: 0, a: 0, b2: 1, num: o.num})
+				want[o.num] = ""
+			case o.inStm && r.stream:
+				stmObjs = append(stmObjs, o)
+			default:
+				off := b.Len()
+				if o.num == 1 {
+					fmt.Fprintf(&b, "1 0 obj\n<< /Type /Catalog /Rev %d >>\nendobj\n", ri)
+					want[1] = "Catalog"
+				} else {
+					fmt.Fprintf(&b, "%d 0 obj\n(r%do%d)\nendobj\n", o.num, ri, o.num)
+					want[o.num] = fmt.Sprintf("r%do%d", ri, o.num)
+				}
+				ents = append(ents, ent{kind: 1, a: off, b2: 0, num: o.num})
+			}
+		}
+		if len(stmObjs) > 0 {
+			stmNum := next
+			next++
+			var hdr, body strings.Builder
+			for i, o := range stmObjs {
+				fmt.Fprintf(&hdr, "%d %d ", o.num, body.Len())
+				fmt.Fprintf(&body, "(r%do%d) ", ri, o.num)
+				want[o.num] = fmt.Sprintf("r%do%d", ri, o.num)
+				ents = append(ents, ent{kind: 2, a: stmNum, b2: i, num: o.num})
+			}
+			data := hdr.String() + body.String()
+			off := b.Len()
+			fmt.Fprintf(&b, "%d 0 obj\n<< /Type /ObjStm /N %d /First %d /Length %d >>\nstream\n%s\nendstream\nendobj\n", stmNum, len(stmObjs), hdr.Len(), len(data), data)
+			ents = append(ents, ent{kind: 1, a: off, b2: 0, num: stmNum})
+		}
+		if ri == 0 {
+			ents = append(ents, ent{kind: 0, a: 0, b2: 65535, num: 0})
+		}
+		sort.Slice(ents, func(i, j int) bool { return ents[i].num < ents[j].num })
+		if !r.stream {
+			for _, e := range ents {
+				if e.num+1 > size {
+					size = e.num + 1
+				}
+			}
+			xoff := b.Len()
+			b.WriteString("xref\n")
+			for _, e := range ents {
+				fmt.Fprintf(&b, "%d 1\n", e.num)
+				if e.kind == 1 {
+					fmt.Fprintf(&b, "%010d %05d n \n", e.a, e.b2)
+				} else {
+					fmt.Fprintf(&b, "%010d %05d f \n", e.a, e.b2)
+				}
+			}
+			fmt.Fprintf(&b, "trailer\n<< /Size %d /Root 1 0 R", size)
+			if prev >= 0 {
+				fmt.Fprintf(&b, " /Prev %d", prev)
+			}
+			fmt.Fprintf(&b, " >>\nstartxref\n%d\n%%%%EOF\n", xoff)
+			prev = xoff
+			continue
+		}
+		xnum := next
+		next++
+		xoff := b.Len()
+		ents = append(ents, ent{kind: 1, a: xoff, b2: 0, num: xnum})
+		for _, e := range ents {
+			if e.num+1 > size {
+				size = e.num + 1
+			}
+		}
+		var idx strings.Builder
+		var data []byte
+		for _, e := range ents {
+			fmt.Fprintf(&idx, "%d 1 ", e.num)
+			data = append(data, byte(e.kind), byte(e.a>>24), byte(e.a>>16), byte(e.a>>8), byte(e.a), byte(e.b2>>8), byte(e.b2))
+		}
+		fmt.Fprintf(&b, "%d 0 obj\n<< /Type /XRef /Size %d /W [1 4 2] /Index [%s] /Root 1 0 R", xnum, size, strings.TrimSpace(idx.String()))
+		if prev >= 0 {
+			fmt.Fprintf(&b, " /Prev %d", prev)
+		}
+		fmt.Fprintf(&b, " /Length %d >>\nstream\n", len(data))
+		b.Write(data)
+		fmt.Fprintf(&b, "\nendstream\nendobj\nstartxref\n%d\n%%%%EOF\n", xoff)
+		prev = xoff
+	}
+	// the numbers to ask for: every object number of the history and two numbers no revision uses
+	var nums []int
+	for n := 0; n <= maxNum; n++ {
+		nums = append(nums, n)
+	}
+	nums = append(nums, next, next+1)
+	return []byte(b.String()), want, nums
+}
+
+type statStub struct{ size int64 }
+
+// R4.16 [C04, C01]
+func ruleRevisionHistoriesEvaluated(c *eng.Ctx) {
+	const R = "R4.16-REVISION-HISTORIES-EVALUATED"
+	c.Rule(R, "reader.NewReader followed by GetObject, evaluated on small files with revision histories written by the rule - classic sections and cross-reference streams chained by /Prev in either order, objects added, replaced, deleted and added again, objects inside object streams replaced by plain ones and the reverse, object numbers that no revision defines below the highest one - with every object number of the history and two unused numbers looked up ascending, then descending twice, then again after ClearCache: every lookup gives the value of the newest revision that defines the number, an error where the newest entry is free or the number never existed, and the same answer whatever was looked up before", 1, 0)
+	newR := c.P.FuncExact("reader.NewReader")
+	get := c.P.FuncExact("reader.(*Reader).GetObject")
+	clear := c.P.FuncExact("reader.(*Reader).ClearCache")
+	if newR == nil || get == nil || len(newR.Params) != 1 || len(get.Params) != 2 {
+		c.Ok(R, "reader.(*Reader).GetObject", token.NoPos, "reader entry points not found: not evaluated")
+		return
+	}
+	o := func(n int) revObj { return revObj{num: n} }
+	del := func(n int) revObj { return revObj{num: n, delete: true} }
+	inS := func(n int) revObj { return revObj{num: n, inStm: true} }
+	type hist struct {
+		name string
+		revs []revision
+	}
+	cases := []hist{
+		{"one classic revision", []revision{{false, []revObj{o(1), o(2), o(3), o(4)}}}},
+		{"classic, then classic: replace, add, delete", []revision{{false, []revObj{o(1), o(2), o(3), o(4)}}, {false, []revObj{o(2), del(3), o(5)}}}},
+		{"classic, then a cross-reference stream with an object stream", []revision{{false, []revObj{o(1), o(2), o(3)}}, {true, []revObj{o(3), inS(4), inS(5)}}}},
+		{"a stream revision, then classic: a compressed object replaced by a plain one, another deleted", []revision{{true, []revObj{o(1), inS(2), inS(3), o(4)}}, {false, []revObj{o(2), del(3)}}}},
+		{"object numbers that are never defined", []revision{{false, []revObj{o(1), o(2), o(3)}}, {false, []revObj{o(6), o(7)}}, {false, []revObj{o(9), o(10), o(11), o(12)}}}},
+		{"deleted, then added again", []revision{{false, []revObj{o(1), o(2), o(3)}}, {false, []revObj{del(2)}}, {false, []revObj{o(2)}}}},
+		{"three stream revisions: a compressed object replaced in a newer object stream", []revision{{true, []revObj{o(1), inS(2), inS(3)}}, {true, []revObj{inS(3), inS(4)}}, {true, []revObj{o(2), del(4)}}}},
+		{"a plain object moved into an object stream", []revision{{false, []revObj{o(1), o(2), o(3), o(4)}}, {true, []revObj{inS(2), inS(4)}}}},
+	}
+	for _, h := range cases {
+		file, want, nums := buildHistory(h.revs)
+		key := "reader.(*Reader).GetObject#" + h.name
+		ev := eng.NewEvaluator()
+		ev.Steps = 40000000
+		ev.MaxDepth = 60
+		ev.External = func(g *ssa.Function, args []any) (any, *eng.EvalError, bool) {
+			switch eng.FuncName(g) {
+			case "os.(*File).Stat":
+				return eng.ETuple{&statStub{int64(len(file))}, nil}, nil, true
+			case "os.(*File).Close":
+				return nil, nil, true
+			case "os.(*File).Seek", "os.(*File).Read", "os.(*File).ReadAt":
+				if r, ok := args[0].(*eng.EBytesReader); ok {
+					nm := eng.FuncName(g)
+					return eng.ReaderMethod(r, nm[strings.LastIndex(nm, ".")+1:], args[1:])
+				}
+			}
+			return nil, nil, false
+		}
+		ev.Invoke = func(method string, recv any, args []any) (any, *eng.EvalError, bool) {
+			if st, ok := recv.(*statStub); ok && method == "Size" {
+				return st.size, nil, true
+			}
+			return nil, nil, false
+		}
+		rd, err := ev.Call(newR, []any{&eng.EBytesReader{Data: file}}, 0)
+		if err != nil && !err.Panic {
+			c.Ok(R, key, get.Pos(), "not evaluated: "+err.Msg)
+			continue
+		}
+		if err != nil {
+			c.Viol(R, key, get.Pos(), "opening the file brings the reader down: "+err.Msg)
+			continue
+		}
+		tup, ok := rd.(eng.ETuple)
+		if !ok || len(tup) != 2 {
+			c.Ok(R, key, get.Pos(), "not evaluated: NewReader does not return (reader, error)")
+			continue
+		}
+		if tup[1] != nil {
+			c.Viol(R, key, get.Pos(), "a well-formed file with this history is refused")
+			continue
+		}
+		bad, skipped := "", ""
+		lookups := 0
+		ask := func(n int, when string) {
+			if bad != "" || skipped != "" {
+				return
+			}
+			got, err := ev.Call(get, []any{tup[0], int64(n)}, 0)
+			if err != nil && !err.Panic {
+				skipped = err.Msg
+				return
+			}
+			lookups++
+			if err != nil {
+				bad = fmt.Sprintf("GetObject(%d) %s: %s", n, when, err.Msg)
+				return
+			}
+			gt, ok := got.(eng.ETuple)
+			if !ok || len(gt) != 2 {
+				skipped = "GetObject does not return (object, error)"
+				return
+			}
+			tok, defined := want[n]
+			switch {
+			case !defined || tok == "":
+				if gt[1] == nil {
+					bad = fmt.Sprintf("GetObject(%d) %s answers %s although the number's newest entry is free or it never existed", n, when, dumpVal(gt[0], 0))
+				}
+			case gt[1] != nil:
+				why := ""
+				if ee, ok := gt[1].(*eng.EErr); ok && ee != nil {
+					why = ": " + ee.Msg
+				}
+				bad = fmt.Sprintf("GetObject(%d) %s fails although the newest revision defines the object (%s)%s", n, when, tok, why)
+			case !strings.Contains(dumpVal(gt[0], 0), tok):
+				bad = fmt.Sprintf("GetObject(%d) %s answers %s, the newest revision says %s", n, when, dumpVal(gt[0], 0), tok)
+			}
+		}
+		for _, n := range nums {
+			ask(n, "in ascending order")
+		}
+		for round := 0; round < 2; round++ {
+			for i := len(nums) - 1; i >= 0; i-- {
+				ask(nums[i], "in descending order")
+			}
+		}
+		if clear != nil && bad == "" && skipped == "" {
+			if _, err := ev.Call(clear, []any{tup[0]}, 0); err != nil {
+				skipped = "ClearCache: " + err.Msg
+			}
+			for i := len(nums) - 1; i >= 0; i -= 2 {
+				ask(nums[i], "after ClearCache")
+			}
+			for _, n := range nums {
+				ask(n, "after ClearCache")
+			}
+		}
+		if skipped != "" {
+			c.Ok(R, key, get.Pos(), "not evaluated: "+skipped)
+			continue
+		}
+		c.Check(bad == "", R, key, get.Pos(), fmt.Sprintf("%d lookups over %d revisions answered by the newest definition", lookups, len(h.revs)), "a lookup does not give the newest definition of the number: "+bad)
+	}
+}
